@@ -216,7 +216,10 @@ class SpawnProcess(multiprocessing.context.SpawnProcess):
                 msg = os.strerror(exitcode)
                 if exitcode == 9:
                     msg += ': possibly out of memory'
-                raise OSError(exitcode, msg) from exc
+                # Do not raise here (inside this thread): that would leave ``_future_``
+                # pending forever and ``wait``/``as_completed`` would never return.
+                error = OSError(exitcode, msg)
+                error.__cause__ = exc
 
         self._logger_queue_.put(None)
         self._result_and_error_.close()
